@@ -1024,6 +1024,9 @@ class CollapseCollector(WrappingCollector):
                     # the "least-best" document
                     # Tell the child collector to remove the document
                     child.remove(best.pop()[1])
+                    # The replaced document was filtered out too
+                    collapsed_counts[ckey] += 1
+                    self.collapsed_total += 1
                     add = True
 
                 if add:
